@@ -18,6 +18,7 @@ import (
 	"strconv"
 	"strings"
 	"sync"
+	"sync/atomic"
 	"time"
 
 	"github.com/cnotch/ipchub/media"
@@ -247,12 +248,31 @@ func (t *teeReader) Read(p []byte) (int, error) {
 func DialTCP(readChunk int) *Conn {
 	cli, srv := net.Pipe()
 	c := &Conn{Flavour: "tcp", items: make(chan Item, 4096)}
+	// net.Pipe is unbuffered: a write blocks until the server reads.  A real socket buffers, so
+	// requests are queued and written by a sender goroutine (order kept).
+	sendQ := make(chan string, 1024)
+	var sendErr atomic.Value
+	go func() {
+		for s := range sendQ {
+			cli.SetWriteDeadline(time.Now().Add(Watchdog))
+			if _, err := cli.Write([]byte(s)); err != nil {
+				sendErr.Store(err)
+			}
+		}
+	}()
 	c.send = func(s string) error {
-		cli.SetWriteDeadline(time.Now().Add(Watchdog))
-		_, err := cli.Write([]byte(s))
-		return err
+		if e, ok := sendErr.Load().(error); ok {
+			return e
+		}
+		select {
+		case sendQ <- s:
+			return nil
+		default:
+			return fmt.Errorf("send queue full")
+		}
 	}
-	c.closeFn = func() { cli.Close() }
+	var closeOnce sync.Once
+	c.closeFn = func() { closeOnce.Do(func() { cli.Close(); close(sendQ) }) }
 	acceptors()
 	rtspAccept(pipeConn{srv})
 	go func() {
